@@ -330,3 +330,8 @@ rename_in_func('statistics/generic/hmm_baumWelch.go', r'func \(obj \*Hmm\) BaumW
 rename_in_func('scalar_real64_math.go', r'func \(c \*Real64\) Erfc\(', 'a', 'arg')
 rename_in_func('avl-tree.go', r'func \(obj \*AvlNode\) rotateLL\(', 'obj', 'node')
 rename_in_func('algorithm/rprop/rprop.go', r'func rprop\(', 'step_init', 'step0')
+# SVD: the bound of the zero-diagonal scan held in a local
+sub('algorithm/svd/svd.go','''      for k := p; k < n-q-1; k++ {
+        if B.At(k,k).GetFloat64() == 0.0 {''','''      lastRow := n-q-1
+      for k := p; k < lastRow; k++ {
+        if B.At(k,k).GetFloat64() == 0.0 {''')
